@@ -62,16 +62,18 @@ func (cp *Checkpoint) Destroy() error {
 }
 
 func (cp *Checkpoint) Document() checkpointDocument {
-	if len(cp.WALs) > 1 {
-		panic("should not serialize a checkpoint with multiple WALs")
-	}
 	doc := checkpointDocument{
 		ID:         cp.ID,
 		Levels:     cp.Levels.Document(),
 		LastSeqNum: cp.LastSeqNum,
 	}
-	if len(cp.WALs) == 1 {
-		doc.WALs = []wal.HandleDocument{cp.WALs[0].Document()}
+	// A checkpoint merged from several operators' checkpoints (scale-in) carries
+	// one WAL per source; all of them are needed to restore it.
+	if len(cp.WALs) > 0 {
+		doc.WALs = make([]wal.HandleDocument, len(cp.WALs))
+		for i, w := range cp.WALs {
+			doc.WALs[i] = w.Document()
+		}
 	}
 
 	return doc
